@@ -54,6 +54,39 @@ DimContract(
     props=("C06",), gen="rescale",
 )
 
+FACTOR3 = ("cols", 2, "1", "1/T")      # (n, 2, 2): [row, direction/kind] -> natural parameters
+FACT = ("obj", {"node": FACTOR3, "edge": FACTOR3, "block": FACTOR3, "scale": "1",
+                "_p": "idx", "_c": "idx", "_j": "idx", "_k": "idx"})
+
+DimContract(
+    "variational._rescale_factors",
+    params={"factors": FACT}, returns="none", props=("C06",),
+)
+
+DimContract(
+    "variational.ExpectationPropagation.propagate_likelihood",
+    params={"edge_order": "idx", "edges_parent": "idx", "edges_child": "idx", "likelihoods": LIKS, "constraints": "T",
+            "posterior": NATS, "factors": FACT, "lognorm": "taint", "max_shape": "1", "min_step": "1",
+            "unphased": "bool"},
+    returns="none", props=("C06",),
+    notes="lognorm (per-edge log normalising constants) is declared tainted: it is written, never read by the kernel",
+)
+
+DimContract(
+    "variational.ExpectationPropagation.propagate_prior",
+    params={"free": "bool", "posterior": NATS, "factors": FACT, "max_shape": "1", "em_maxitt": "int",
+            "em_reltol": "1"},
+    returns="none", props=("C06",),
+)
+
+DimContract(
+    "variational.ExpectationPropagation.propagate_mutations",
+    params={"mutations_order": "idx", "mutations_posterior": NATS, "mutations_phase": "1", "mutations_edge": "idx",
+            "edges_parent": "idx", "edges_child": "idx", "likelihoods": LIKS, "constraints": "T", "posterior": NATS,
+            "factors": FACT, "unphased": "bool"},
+    returns="none", props=("C06",),
+)
+
 # ---------------------------------------------------------------------------------------------- util.py
 DimContract(
     "util._constrain_ages",
@@ -70,6 +103,17 @@ DimContract(
     returns="idx", poly=("a",),
     props=("C06", "C07"), gen="dim_fixed_changepoints",
     notes="polymorphic in the dimension of the weights: only ratios of partial sums are compared",
+)
+
+DimContract(
+    "rescaling._count_mutations",
+    params={"node_is_sample": "bool", "mutations_node": "idx", "mutations_position": "L", "edges_parent": "idx",
+            "edges_child": "idx", "edges_left": "L", "edges_right": "L", "indexes_insert": "idx",
+            "indexes_remove": "idx", "sequence_length": "L", "size_biased": "bool"},
+    returns=("tuple", ("cols", 1, "1", "L"), "idx"),
+    props=("C07",), gen="dim_count_mutations", axes=("L",),
+    notes="the only numeric kernel that reads genome coordinates: per-edge (mutation count, span); the caller "
+          "multiplies column 1 by mutation_rate (1/(T*L)) to get the 1/T-dimensioned likelihood column",
 )
 
 DimContract(
@@ -108,3 +152,54 @@ DimContract(
     props=("C06",), gen="dim_piecewise_posterior",
     notes="gammainc_inv is hypergeo._gammainc_inv (pure numbers in and out, assumed A-DIM-HYPERGEO)",
 )
+
+# ---------------------------------------------------------------------------------------------- approx.py: EP updates
+# Convention of approx.py, read from the docstrings ("log p(t_i, t_j) := log(t_i - t_j) * y_ij - mu_ij * (t_i - t_j)
+# + log(t_i) * (a_i - 1) - b_i * t_i ..."): a_* gamma shapes (1), b_* gamma rates (1/T), y_ij mutation count (1),
+# mu_ij = mutation_rate * span (1/T), t_i / t_j fixed ages (T), pars_* natural-parameter rows (1, 1/T).
+# Results: moments -> E[t] (T), V[t] (T^2); projections -> natural parameters; phase probabilities pure numbers.
+# The first result of the *_moments / *_projection functions is the log normalising constant; it contains
+# b*log(t) terms whose behaviour under a change of units is value dependent: declared 'taint' (never compared,
+# never an output of dating; C06 says nothing about it).
+_PARAM_DIM = {"a_i": "1", "a_j": "1", "b_i": "1/T", "b_j": "1/T", "y_ij": "1", "mu_ij": "1/T", "t_i": "T", "t_j": "T",
+              "pars_i": NAT, "pars_j": NAT, "pars_ij": NAT, "mean": "T", "variance": "T^2", "mn": "T", "va": "T^2",
+              "s": "1", "r": "1/T", "a": "1", "b": "1", "c": "1", "z": "1"}
+_MOM1 = ("tuple", "taint", "T", "T^2")
+_MOM2 = ("tuple", "taint", "T", "T^2", "T", "T^2")
+_APPROX = {
+    "_valid_moments": "bool", "_valid_gamma": "bool", "_valid_hyp1f1": "bool", "_valid_hyperu": "bool",
+    "_valid_hyp2f1": "bool",
+    "moments": _MOM2, "rootward_moments": _MOM1, "leafward_moments": _MOM1, "unphased_moments": _MOM2,
+    "twin_moments": _MOM1, "sideways_moments": _MOM1,
+    "mutation_moments": ("tuple", "T", "T^2"), "mutation_rootward_moments": ("tuple", "T", "T^2"),
+    "mutation_leafward_moments": ("tuple", "T", "T^2"), "mutation_unphased_moments": ("tuple", "1", "T", "T^2"),
+    "mutation_twin_moments": ("tuple", "1", "T", "T^2"), "mutation_sideways_moments": ("tuple", "1", "T", "T^2"),
+    "mutation_edge_moments": ("tuple", "T", "T^2"), "mutation_block_moments": ("tuple", "1", "T", "T^2"),
+    "gamma_projection": ("tuple", "taint", NAT, NAT), "leafward_projection": ("tuple", "taint", NAT),
+    "rootward_projection": ("tuple", "taint", NAT), "unphased_projection": ("tuple", "taint", NAT, NAT),
+    "twin_projection": ("tuple", "taint", NAT), "sideways_projection": ("tuple", "taint", NAT),
+    "mutation_gamma_projection": ("tuple", "1", NAT), "mutation_leafward_projection": ("tuple", "1", NAT),
+    "mutation_rootward_projection": ("tuple", "1", NAT), "mutation_edge_projection": ("tuple", "1", NAT),
+    "mutation_unphased_projection": ("tuple", "1", NAT), "mutation_twin_projection": ("tuple", "1", NAT),
+    "mutation_sideways_projection": ("tuple", "1", NAT), "mutation_block_projection": ("tuple", "1", NAT),
+}
+
+
+def _approx_contracts():
+    import ast as _ast
+    from vt import extract
+    for fname, ret in _APPROX.items():
+        try:
+            fn = extract.get_function("approx." + fname)
+        except LookupError:
+            continue  # reported as does-not-attach by the runner (the name stays in APPROX_NAMES)
+        params = {}
+        for a in fn.node.args.args:
+            if a.arg in _PARAM_DIM:
+                params[a.arg] = _PARAM_DIM[a.arg]
+        DimContract("approx." + fname, params=params, returns=ret, props=("C06",),
+                    gen="dim_approx" if not fname.startswith("_valid") else None)
+
+
+APPROX_NAMES = ["approx." + f for f in _APPROX]
+_approx_contracts()
